@@ -6,6 +6,11 @@ HERE = os.path.dirname(os.path.dirname(os.path.abspath(__file__)))
 ALL = ["C%02d" % i for i in range(1, 21)]
 
 CLAIMED = {
+ "C03": dict(
+   technique="TLA+ model RootLoop.tla of the three iteration loops (quasi-Newton, Anderson, gd/adam) checked exhaustively by TLC; executions of every method on contractive problem families recorded through API-boundary observers (custom_terminator, function wrapper, warnings) and validated by TLC against Trace_RootLoop.tla, with the returned tensor re-inserted into the user's function",
+   text="TLC explores every choice of residual/step classes per iterate for maxiter <= 4 in all three loops incl. the start-up shortcuts and checks: a silent return meets the tolerance, it is the very iterate that passed the test, an exact root never raises, warned iff not converged, the minimizer's fallback is no worse than the start; four deviation switches reproduce the defects that were in the code. ~740 (quick) real executions (7 methods x 6 families incl. exact-root starts, exact landings, constant maps, complex unknowns x tolerance settings x line search x tight budgets) must each be a behaviour of the model: every stop test is on the newest iterate with the verdict its classes imply, and the final event binds which iterate came back and the verdicts computed from the returned tensor itself (residual class, f <= f(y0), distance to the reference solution within the contraction bound, shape/dtype).",
+   design_ref="5.6, 6 (C03)",
+   note="Trusted: TLC/SANY; xitorch's TerminationCondition is used inside the recording terminator (its verdict is cross-checked against the logged classes by the trace spec); reference solutions by plain fixed-point iteration / Newton in the harness. Silence is demanded for newton, broyden1/2, linearmixing(alpha=-1), anderson_acc, gd(step 0.3) on the families; adam only if silent."),
  "C11": dict(
    technique="TLA+ models LinopExpr.tla (expression trees with literal product dispatch and exact integer denotation), LinopCache.tla (per-class capability cache over all instantiation histories) and Bcast.tla (batch-shape table) enumerated exhaustively by TLC; every enumerated tree, history and shape pair executed on the real classes and compared with TLC's predicted values, leaf call logs, flags and shapes",
    text="TLC enumerates all 3176 operator expressions of depth <= 2 over six leaf kinds (mv only, +rmv, +mm, all products, Hermitian-flagged, dense) built with .H, scalar *, +, -, matmul and checks that the literal dispatch of mv/rmv/mm/rmm/fullmatrix equals the expression's integer denotation; all instantiation orders of three class hierarchies for the capability cache; the complete batch-shape table for rank <= 2. The real code is then run on the same trees with the same integer matrices (results must equal TLC's vectors exactly and the leaves' primitive-call log must equal the predicted dispatch path), on random complex128/float32/batched matrices against the dense denotation, on every instantiation history with freshly created classes, and on every shape pair (accept with the broadcast shape or reject).",
